@@ -14,7 +14,8 @@ import (
 
 func init() {
 	register(&Property{
-		ID: "C17",
+		ID:    "C17",
+		Yield: true,
 		Rule: "a reactive scripted server holds 'the nick I use for this client' and plays scripts over {433 during registration x0..6, 001 with the requested or a different nick, client NICK confirmed, refused once/twice then confirmed, " +
 			"NICK forced by the server, NICK of other users to/from look-alike names, a server-side respelling of the client's nick in letter case only}; exhaustively for short scripts (collisions 0..3 x 2 welcomes x all event sequences up to length 3 or 4) and by PRNG up to length 40; tracking on/off (tracked sessions with and without a channel), " +
 			"generators {default, append '_', fixed-length rotation, identity, a stateful fallback list}; every consultation of a custom generator is recorded and a collision must be answered from exactly one consultation made with the refused nick. At every marker Me().Nick must equal the server's nick; Me() and Config().Me must be non-nil at every marker and inside every harness handler " +
